@@ -614,7 +614,9 @@ func (fv *FuncVer) unop(st *State, x *ssa.UnOp) {
 		fv.checkNonNil(st, l, x.Pos(), x)
 		v := fv.load(st, l)
 		if t, ok := v.(*Term); ok {
-			if l.Kind != rootCell {
+			if l.Kind != rootCell || len(l.Path) > 0 {
+				// (a field of a local struct too: the nested fields of a value stored whole into
+				// the local were not covered when it was loaded)
 				st.assume(fv.wf(st, t, et, 1))
 			}
 			fv.setReg(st, x, t)
